@@ -62,6 +62,16 @@ EXTRA = {
     'C03-compressor-cached-on-websocket': ['C17', 'C06'],
     'C07-session-recycled-ready-not-reset': ['C17', 'C16'],
     'C07-regular-skipped-while-readable': ['C15'],
+    'C10-m1-build-request-headers-alias': ['C17'],
+    'C14-m1-send-pong-limit-ge-125': ['C03', 'C01'],
+    'C15-m1-close-timeout-passed-ping-timeout': ['C07', 'C09'],
+    'C04-m1-control-limit-gt-126': ['C14'],
+    'C05-m1-on-frame-fin-or-not-control': ['C04'],
+    'C10-m1-header-limit-ge-16384': ['C19'],
+    'C06-m1-rsv1-or-decompress': ['C01', 'C14'],
+    'C01-m1-first-frame-is-last': ['C06', 'C05'],
+    'C05-m1-dfa-f4-byte-class': ['C04'],
+    'C10-m1-lws-without-tab': ['C06'],
     'C12-sent-close-property-decode-raises-before-flag': ['C08'],
     'C12-state-local-across-reconnect': ['C17'],
     'C14-close-validation-in-finally-sets-closing': ['C08', 'C03'],
